@@ -8,8 +8,10 @@ package chain
 
 import (
 	"bytes"
+
 	"fmt"
 	"math/big"
+	"pgregory.net/rapid"
 	"testing"
 	"time"
 
@@ -76,8 +78,8 @@ type slashMonitor struct {
 	fundedHash  map[string]int
 	// classification
 	funded, fundedMultiBacker, stakingBetween, alteredAttempts, expired int
-	sawReport                                                         bool
-	skippedExact                                                      int
+	sawReport                                                           bool
+	skippedExact                                                        int
 }
 
 func c11Key(q []byte, rep []byte, h uint64) string { return fmt.Sprintf("%x|%x|%d", q, rep, h) }
@@ -439,8 +441,47 @@ func slashProfile() *Profile {
 		OpPropose: 16, OpAddFee: 8, OpVote: 3, OpUnjailReporter: 4,
 		OpDelegate: 5, OpUndelegate: 7, OpRedelegate: 7, OpCancelUnbond: 2, OpUnjailVal: 1,
 	}
-	p := &Profile{Name: "slash", Weights: w, MinBlocks: 10, MaxBlocks: 30, MaxOps: 3, AbsentPM: 60, BadVarPM: 40, Setup: true, ThoroughScale: 3,
-		GapW: []int{2, 3, 10, 30, 3, 3, 2, 2, 5, 2, 1, 0, 1, 0}}
+	// one case in three starts with a scripted staking history between report and dispute: a user with a genesis
+	// delegation becomes a reporter, reports, then redelegates most of that stake away AND undelegates part of the
+	// rest from the origin validator (in either order), so that the slash has to follow both unbonding entries and
+	// the redelegation; then the report is disputed with the full fee. Shared between the two hooks of one case.
+	var delegs [][3]int64
+	var nVals int
+	genesis := func(t *rapid.T) GenesisCfg {
+		cfg := GenGenesis(t)
+		if cfg.MaxValidators < cfg.NumValidators {
+			cfg.MaxValidators = cfg.NumValidators + 1
+		}
+		delegs, nVals = cfg.UserDelegs, cfg.NumValidators
+		return cfg
+	}
+	prefix := func(pick func(string, int) int) []Block {
+		if pick("scripted", 3) != 0 || len(delegs) == 0 {
+			return nil
+		}
+		d := delegs[pick("which", len(delegs))]
+		actor := nVals + int(d[0])
+		src := int(d[1])
+		dst := (src + 1 + pick("dst", nVals-1)) % nVals
+		plain := 8 * (1 + pick("pad", 3)) // R[2] multiple of 8: the signer index is taken literally
+		redel := Op{K: OpRedelegate, A: actor, R: [3]int{src, dst, plain}, Amt: Amount{Kind: AmtOfStake, N: []int64{960, 900, 500, 990}[pick("redelPm", 4)]}}
+		undel := Op{K: OpUndelegate, A: actor, R: [3]int{src, 0, plain}, Amt: Amount{Kind: AmtOfStake, N: []int64{750, 500, 999, 250}[pick("undelPm", 4)]}}
+		first, second := redel, undel
+		if pick("order", 2) == 0 {
+			first, second = undel, redel
+		}
+		cat := 1 + pick("category", 3)
+		return []Block{
+			{Gap: GapSpec{Kind: 2}, Ops: []Op{{K: OpCreateReporter, A: actor, R: [3]int{0, 0, plain}}}},
+			{Gap: GapSpec{Kind: 2}, Ops: []Op{{K: OpSubmit, A: actor, R: [3]int{0, 1, plain}, S: "nodep"}}},
+			{Gap: GapSpec{Kind: 2}, Ops: []Op{{K: OpSubmit, A: actor, R: [3]int{1, 2, plain}, S: "nodep"}}},
+			{Gap: GapSpec{Kind: 3}, Ops: []Op{first}},
+			{Gap: GapSpec{Kind: 3}, Ops: []Op{second}},
+			{Gap: GapSpec{Kind: 3}, Ops: []Op{{K: OpPropose, A: pick("proposer", 3), R: [3]int{pick("report", 4), 0, 0}, V: cat, Amt: Amount{Kind: AmtOfNeeded, N: 1000}}}},
+		}
+	}
+	p := &Profile{Name: "slash", Weights: w, MinBlocks: 10, MaxBlocks: 30, MaxOps: 3, AbsentPM: 60, BadVarPM: 40, Setup: true, ThoroughScale: 3, Genesis: genesis, Prefix: prefix,
+		GapW: []int{2, 3, 10, 30, 3, 3, 2, 2, 5, 2, 1, 0, 1, 0, 6}}
 	return p
 }
 
